@@ -13,7 +13,7 @@ CONSTANTS
   BitWidth = 8
   AllowEmpty = FALSE
   AlwaysRow = FALSE
-  Plans = {<<2, 2>>}
+  Plans = {202}
   SampleDB = 0
   SampleMS = 0
   SampleSeries = 3
